@@ -9,6 +9,7 @@ import MTVerif.Model.Rewrite
 import MTVerif.Model.Trigger
 import MTVerif.Model.GetStub
 import MTVerif.Model.Store
+import MTVerif.Model.Tracer
 namespace MT
 open Sexp
 
@@ -92,6 +93,25 @@ def sexpOfSRow (r : Store.SRow) : Sexp :=
   let o (x : Option String) : Sexp := match x with | none => .atom "NULL" | some s => .str s
   .list [.atom "r", .str r.module, .str r.qualname, .str r.args, o r.ret, o r.yld]
 
+def opOf : Sexp → Except String Tracer.Op
+  | .atom "retValue" => .ok .retValue | .atom "retConst" => .ok .retConst
+  | .atom "yieldValue" => .ok .yieldValue | .atom "other" => .ok .other
+  | s => .error s!"bad op {s}"
+def semOf : Sexp → Except String Tracer.Sem
+  | .atom "returned" => .ok .returned | .atom "yielded" => .ok .yielded
+  | .atom "awaited" => .ok .awaited | .atom "raised" => .ok .raised
+  | s => .error s!"bad sem {s}"
+def evOf : Sexp → Except String Tracer.Ev
+  | .list [.atom "call", f, c, r, .list args] => do
+      .ok (.call (← natOf f) (← natOf c) (r == .atom "true") (← args.mapM fieldOf))
+  | .list [.atom "ret", f, c, o, co, sm, t] => do
+      .ok (.ret (← natOf f) (← natOf c) (← opOf o) (co == .atom "true") (← semOf sm) (← tyOf t))
+  | .list [.atom "other", f, c] => do .ok (.other (← natOf f) (← natOf c))
+  | s => .error s!"bad event {s}"
+def sexpOfPTrace (t : Tracer.PTrace) : Sexp :=
+  let opt (o : Option Ty) : Sexp := match o with | none => .atom "none" | some t => sexpOfTy t
+  .list [.atom "trace", .atom (toString t.func), .list (t.args.map sexpOfField), opt t.ret, opt t.yld]
+
 def handle (st : DState) (req : Sexp) : Except String (DState × Sexp) :=
   match req with
   | .list (.atom "hier" :: xs) => do
@@ -151,6 +171,16 @@ def handle (st : DState) (req : Sexp) : Except String (DState × Sexp) :=
                           .list ((Store.filter s (← strOf m) p' 1000000).map sexpOfSRow)])
       | .list [.atom "modules"] => .ok (st, .list ((Store.listModules s).map (fun m => .str m)))
       | _ => .error "bad store query"
+  | .list [.atom "tracer", .list admitL, .list resolve, rate, .list draws, .list evs] => do
+      -- admit: list of admitted code ids; resolve: list of (code func) pairs
+      let adm ← admitL.mapM natOf
+      let res ← resolve.mapM (fun x => match x with
+        | .list [c, f] => do .ok (← natOf c, ← natOf f)
+        | _ => .error "bad resolve entry")
+      let cfg : Tracer.Cfg := { admits := fun c => adm.contains c, resolve := fun c => res.lookup c,
+                                rate := (match rate with | .atom "none" => none | r => (natOf r).toOption) }
+      let s := Tracer.run cfg (← draws.mapM natOf) (← evs.mapM evOf)
+      .ok (st, .list [.list (s.log.map sexpOfPTrace), .atom (toString s.traces.length), .atom (toString s.draws.length)])
   | .list [.atom "trig", r, t] => do
       .ok (st, sexpOfBool ((← tyOf t).trig (← rwOf r)))
   | .list [.atom "normal", t] => do
